@@ -15,6 +15,22 @@ CHECKS = {
             "generated cases.",
             "Trusts fractions.Fraction for the reference counts; only documented-grammar strings are generated.",
             "DESIGN.md section 4 C01"),
+    "C09": ("fork-per-history exploration of first-touch event sequences against a canonical-run oracle (singles, pairs, "
+            "state-closure BFS, Hypothesis lists, ddmin shrinking)",
+            "Every history of lazy-load first-touch events runs in a fresh interpreter; per-event observations and a digest of "
+            "everything the public table serves must equal the canonical run. Quick: all 318 single events, 40% of the "
+            "same-group pairs, generated histories; thorough: all pairs of a reduced alphabet, breadth-first closure of the "
+            "abstract loader state, thousands of generated histories. Exploration of a finite but large history space.",
+            "fork() of a zygote that never imported periodictable stands for a fresh interpreter; digest samples 12 atoms for x-ray.",
+            "DESIGN.md section 4 C09"),
+    "C10": ("fork-per-history Hypothesis search over interleavings of private-table init, public use, assignment and in-place "
+            "mutation; digest + shared-object-graph oracle",
+            "Generated and systematic histories (private init first for every loader; mutate/assign then observe) each in a "
+            "fresh interpreter; public and unmutated private tables must serve the canonical digest, no mutable object may be "
+            "reachable from two tables, pickles restore identical atoms, parsed atoms belong to T.",
+            "Mutations only after the group's init on that table; calculators without a table argument (D2O_sld, fasta) are not "
+            "judged on private tables; one recorded finding (shared class-level Neutron placeholder) is excluded by bucket.",
+            "DESIGN.md section 4 C10"),
 }
 
 PENDING = {}
